@@ -131,11 +131,19 @@ def st_targeted():
     if ctx:
         parts.append(st.tuples(req, st.sampled_from(ctx)).map(
             lambda t: {'readers': [[[t[0], [t[1]]]]], 'writers': [[['ctx_delete', t[1]]]]}))
+    # one request for everything (no handle list) against one writer with one or two transactions, mostly context and
+    # descriptor transactions (the MDIB program language has many more state operations than these)
+    few = MP.st_op(inv, kinds=('metric',), descriptor_ops=True, context_ops=True, multi=False, kw_hold=False, aborts=False)
+    ctx_or_descr = few.filter(lambda o: o[0] != 'state' and o[0] != 'state_multi' and o[0] != 'empty')
+    parts.append(st.tuples(req, st.sampled_from([None, None, []]), st.lists(st.one_of(ctx_or_descr, ctx_or_descr, few),
+                                                                             min_size=1, max_size=2)).map(
+        lambda t: {'readers': [[[t[0], t[1]]]], 'writers': [t[2]]}))
+    parts.append(parts[-1])
     return st.tuples(st.one_of(parts), st.booleans()).map(lambda t: dict(t[0], setup=[], fine=t[1]))
 
 
 def st_case():
-    return st.tuples(st.one_of(st_scenario(), st_scenario(), st_targeted()), st.lists(st.integers(0, 5), max_size=40)).map(
+    return st.tuples(st.one_of(st_scenario(), st_targeted()), st.lists(st.integers(0, 5), min_size=6, max_size=40)).map(
         lambda t: dict(t[0], choices=t[1]))
 
 
@@ -388,11 +396,14 @@ def small_scenarios(seed: int, n: int):
     inv = MP.inventory(FIXTURE)
     op = MP.st_op(inv, descriptor_ops=True, context_ops=True, multi=False, kw_hold=False, aborts=False)
     request = st.tuples(st.sampled_from(REQUESTS), st_handles(inv)).map(list)
-    strat = st.fixed_dictionaries({
+    general = st.fixed_dictionaries({
         'setup': st.lists(op, max_size=2),
         'readers': st.lists(st.lists(request, min_size=1, max_size=1), min_size=1, max_size=1),
         'writers': st.lists(st.lists(op, min_size=1, max_size=2), min_size=1, max_size=2),
         'fine': st.just(False)})
+    # two in three scenarios are targeted ones (a request against the very objects / kinds one writer changes): their
+    # schedule spaces are small, so the enumeration is complete for them
+    strat = st.one_of(general, st_targeted().map(lambda c: dict(c, fine=False)), st_targeted().map(lambda c: dict(c, fine=False)))
     got = []
 
     @hseed(seed)
@@ -405,8 +416,33 @@ def small_scenarios(seed: int, n: int):
     return got[:n]
 
 
-def shard_dfs(ctx, seed, n, max_schedules):
-    for scenario in small_scenarios(seed, n):
+def systematic_scenarios(seed: int, part: int, parts: int):
+    """Every request kind (no handle list) x one writer with one transaction of every basic kind: the schedule spaces are
+    small, so all their schedules are enumerated.  The operations' contents are drawn with Hypothesis (seeded)."""
+    from hypothesis import HealthCheck, Phase, given, settings
+    from hypothesis import seed as hseed
+    inv = MP.inventory(FIXTURE)
+    op = MP.st_op(inv, descriptor_ops=True, context_ops=True, multi=False, kw_hold=False, aborts=False)
+    kinds = ['ctx_update', 'ctx_new', 'set_location', 'descr_update', 'descr_create', 'descr_delete', 'state', 'ctx_delete']
+    combos = [(r, k) for r in REQUESTS for k in kinds]
+    mine = combos[part::parts]
+    out = []
+    for i, (req, kind) in enumerate(mine):
+        got = []
+
+        @hseed(seed + i)
+        @settings(max_examples=2, database=None, deadline=None, phases=[Phase.generate], suppress_health_check=list(HealthCheck))
+        @given(op.filter(lambda o, kind=kind: o[0] == kind))
+        def collect(o):
+            got.append(o)
+        collect()
+        for o in got[:2]:
+            out.append({'setup': [], 'readers': [[[req, None]]], 'writers': [[o]], 'fine': False})
+    return out
+
+
+def shard_dfs(ctx, seed, n, max_schedules, part=0, parts=1):
+    for scenario in systematic_scenarios(seed, part, parts) + small_scenarios(seed, n):
         choices = []
         count = 0
         complete = False
@@ -434,8 +470,8 @@ def shard(ctx, which, *args):
 
 def run(ctx):
     quick = ctx.tier == 'quick'
-    jobs = [("random", 22 if quick else 250)] * (R.NPROC - 4)
-    jobs += [('dfs', ctx.sub_seed('dfs', i) % 2**32, 2 if quick else 6, 80 if quick else 4000) for i in range(4)]
+    jobs = [("random", 22 if quick else 250)] * (R.NPROC - 6)
+    jobs += [('dfs', ctx.sub_seed('dfs', i) % 2**32, 4 if quick else 12, 40 if quick else 3000, i, 6) for i in range(6)]
     R.run_shards(ctx, __name__, 'shard', jobs)
 
 
